@@ -44,6 +44,19 @@ impl RefIndex {
             .unwrap_or(Vec::new())
     }
 
+    #[cfg(feature = "verif-hooks")]
+    pub fn verif_dump(
+        &self,
+    ) -> (
+        HashMap<Key, HashSet<NodeId>>,
+        HashMap<Key, HashSet<NodeId>>,
+    ) {
+        (
+            self.block_references.clone(),
+            self.inline_references.clone(),
+        )
+    }
+
     pub fn index_node(&mut self, graph: &Graph, node_id: NodeId) {
         match graph.graph_node(node_id) {
             GraphNode::Reference(reference) => {
